@@ -206,7 +206,11 @@ def run(ctx):
                                       replay={"dir": d, "abstract_entries": absopt})
         # MIME of files
         cfg = pyg.make_config(tree.root, **{"handlers.dir.DirHandler|cachetime": "0"})
-        for sel in ["/README", "/page.html", "/data.bin", "/pics/img.gif", "/docs/a.txt", "/names/sp ace.txt", "/names/\udcae.txt", "/about.txt"]:
+        # (files named *.GOPHERMAP in other letter cases are documents like any other: one kind, one type, in every protocol)
+        tree.write("menus/INDEX.GOPHERMAP", b"iwritten like a map\n0Readme\t/README\n")
+        tree.write("menus/Autumn.GopherMap", b"0Readme\t/README\n")
+        for sel in ["/README", "/page.html", "/data.bin", "/pics/img.gif", "/docs/a.txt", "/names/sp ace.txt", "/names/\udcae.txt", "/about.txt",
+                    "/menus/INDEX.GOPHERMAP", "/menus/Autumn.GopherMap"]:
             mimes = {}
             r = pyg.request(reqs.build("gopherp", sel, gplus="!"), cfg)
             m = re.search(rb"\+VIEWS:\r\n ([^: ]+)", r.out)
